@@ -20,7 +20,7 @@ def enum_plans(tier):
     th = tier == "thorough"
     # every history of the timing alphabet (ticks, connect results, one good CEA / CER): timeouts at every offset
     return [dict(cfg="B", depth=7 if th else 6, maxtime=7 if th else 6, alpha=["ceaok"], maxconn=2),
-            dict(cfg="B", depth=5, maxtime=2, alpha=["ceaok", "send"], maxconn=2),       # routing before / after the exchange
+            dict(cfg="B", depth=5, maxtime=2, alpha=["ceaok", "send1", "sendf"], maxconn=2),       # routing before / after the exchange
             dict(cfg="A", depth=6 if th else 5, maxtime=5, alpha=["cerok"], maxconn=1)]
 
 
